@@ -35,7 +35,7 @@ def rstr(rnd, n=12):
 def rdt(rnd):
     if rnd.random() < 0.3:
         return None
-    off = rnd.choice([0, -300, 330, 840, -720, -30, 60])
+    off = rnd.choice([0, -300, 330, 840, -720, -30, 60, -210, -570, 345, -150, -719])
     tz = datetime.timezone(datetime.timedelta(minutes=off), rnd.choice(["UTC", "EST", "X"]))
     return datetime.datetime(rnd.choice([1999, 2020, 2024]), rnd.randrange(1, 13), rnd.randrange(1, 29), rnd.randrange(24),
                              rnd.randrange(60), rnd.randrange(60), rnd.choice([0, 0, 123000, 999499, 500]), tzinfo=tz)
@@ -83,12 +83,18 @@ def run(ctx):
         ev = {"id": "q%d" % i, "op": "compose", "cfg": {k: (v if k == "version" else cps(v)) for k, v in cfgd.items()},
               "password": cps(password), "reqs": [], "years": [], "acctnum": [], "recid": [], "dtacctup": {"t": "none"},
               "wrote": False, "file": [], "exc": "", "back": {"ok": False, "inst": fc.EMPTY, "exc": ""}}
-        if version >= 200 and rnd.random() < 0.1:
+        if version >= 200 and rnd.random() < 0.15:
             ev["call"] = "refuse"
             try:
-                c = OFXClient("https://x.invalid/", userid=cfgd["userid"], version=version, close_elements=False)
-                c.request_statements(password, StmtRq(acctid="1", accttype="CHECKING"), dryrun=True)
+                if rnd.random() < 0.7:
+                    c = OFXClient("https://x.invalid/", userid=cfgd["userid"], version=version, close_elements=False, bankid="123")
+                    data_ = c.request_statements(password, StmtRq(acctid="1", accttype="CHECKING"), dryrun=True).read()
+                else:
+                    # the per-request override of a version 1 client
+                    c = OFXClient("https://x.invalid/", userid=cfgd["userid"], version=102, bankid="123")
+                    data_ = c.request_profile(version=version, close_elements=False, dryrun=True).read()
                 ev["wrote"] = True
+                ev["file"] = list(data_)
             except Exception as e:
                 ev["exc"] = type(e).__name__
             evs.append(ev)
